@@ -426,7 +426,7 @@ fn spoil(r: &mut Rng, f: &mut Fields) {
     f.y = f.y.clamp(1, 9999);
     let k = if r.chance(1, 5) { 2 } else { 1 };
     for _ in 0..k {
-        match r.below(12) {
+        match r.below(15) {
             0 => f.m = *r.pick(&[13i64, 14, 0, 20, 99]),
             1 => f.d = month_len(f.y, f.m.clamp(1, 12)) + 1,
             2 => f.d = *r.pick(&[0i64, 32, 33, 99]),
@@ -453,6 +453,26 @@ fn spoil(r: &mut Rng, f: &mut Fields) {
                 f.doy_o = Some(if leap { *r.pick(&[366i64, 367]) } else { *r.pick(&[365i64, 366]) });
             }
             10 => f.wd_shift = 1 + r.below(6) as usize,
+            11 | 12 => {
+                // a day of year of that year which is NOT the written month and day (next to it, or anywhere)
+                let y = f.y.clamp(1, 9999);
+                let len = if month_len(y, 2) == 29 { 366 } else { 365 };
+                let own = days_from_1900(y, f.m.clamp(1, 12), f.d.clamp(1, 28)) - days_from_1900(y, 1, 1) + 1;
+                let other = if r.chance(1, 2) { own + *r.pick(&[-1i64, 1, 2, -31, 31]) } else { 1 + r.below(len as u64) as i64 };
+                f.doy_o = Some((other - 1).rem_euclid(len) + 1);
+            }
+            13 => {
+                // 23:59:60 with a day of year: on a leap second day (valid), or the day before / after it
+                f.h = 23;
+                f.mi = 59;
+                f.s = 60;
+                let (y, m, d) = *r.pick(&[(2016i64, 12i64, 31i64), (2015, 6, 30), (1998, 12, 31), (2012, 6, 30)]);
+                f.y = y;
+                f.m = m;
+                f.d = d;
+                let own = days_from_1900(y, m, d) - days_from_1900(y, 1, 1) + 1;
+                f.doy_o = Some(own + *r.pick(&[0i64, 0, -1, -2]));
+            }
             _ => {
                 // 29-31 February
                 f.m = 2;
@@ -551,11 +571,16 @@ const CONST_STRINGS: [(&str, &str); 9] = [
 /// a readable format (separators of the probe alphabet, at least one after each token) and a text that
 /// matches it with valid or out-of-range fields: `%f` always nine digits, `%j` three
 fn range_pair(r: &mut Rng, spoiled: bool) -> (String, String) {
-    let mut toks: Vec<char> = match r.below(6) {
+    let mut toks: Vec<char> = match r.below(10) {
         0 => vec!['Y', 'm', 'd'],
         1 => vec!['Y', 'j'],
         2 => vec!['Y', 'j', 'H', 'M', 'S'],
         3 => vec!['A', 'd', 'B', 'Y', 'H', 'M', 'S'],
+        // a day of year next to a month and / or a day of the month, a weekday, a time of day
+        4 => vec!['Y', 'm', 'd', 'j'],
+        5 => vec!['Y', 'j', *r.pick(&['m', 'd', 'B', 'b'])],
+        6 => vec!['a', 'Y', 'j', 'H', 'M', 'S'],
+        7 => vec!['Y', 'j', 'm', 'd', 'H', 'M', 'S', 'A'],
         _ => full_tokens(r),
     };
     if r.chance(1, 4) {
@@ -577,13 +602,21 @@ fn range_pair(r: &mut Rng, spoiled: bool) -> (String, String) {
     if spoiled {
         spoil(r, &mut f);
     }
+    // now and then the LAST field is written without its leading zeros (a final field of one character)
+    let short_last = r.chance(1, 8);
     let mut text = String::new();
     let mut it = fmt.chars().peekable();
     while let Some(c) = it.next() {
         if c == '%' {
             let t = it.next().unwrap();
+            let last = it.peek().is_none();
             text.push_str(&match t {
                 'f' => format!("{:09}", f.ns),
+                'm' | 'd' | 'H' | 'M' | 'S' | 'j' if last && short_last => {
+                    let full = render_token(r, t, &f);
+                    let short = full.trim_start_matches('0');
+                    if short.is_empty() { "0".to_string() } else { short.to_string() }
+                }
                 _ => render_token(r, t, &f),
             });
         } else {
